@@ -361,4 +361,38 @@ PROPS = {
                  "withdraw / EndBlocker cannot pay out a lock whose unstaking marker has not matured, failed calls are no-ops. Model tied to the real keepers "
                  "by differential run of the complete state after every op.",
  },
+ "C19": {
+  "modules": ["OsmoVerif.Props.C19"],
+  "min_theorems": 30,
+  "fingerprints": [],
+  "engines": [{"name": "det", "kind": "app", "n": {"quick": 200, "thorough": 1600}, "shards": {"quick": 4, "thorough": 16}}],
+  "rule": "one evaluation = one compared observation: a block (node A vs node B in-process; vs a second OS process with GOMAXPROCS=2/GOGC=25), "
+          "a module's exported genesis / a keeper query after export->import, a block of the imported+store-synchronised node. Histories of 40 blocks "
+          "(n = blocks per shard) through the real ABCI surface (InitChain/FinalizeBlock with signed txs/Commit): 0-9 txs per block from 12 accounts over "
+          "29 message kinds (bank, lockup, gamm balancer+stableswap, poolmanager swaps/split routes, CL pools/positions, tokenfactory, incentives gauges, "
+          "staking/distribution, txfees fee tokens, protorev base denoms), ~8% low-gas txs (out of gas in ante / in the message), bogus and unauthorised "
+          "messages; block gaps 1ns..3 days so hour/day/week epochs tick (mint with reduction period 2, incentives distribution, twap pruning, protorev); "
+          "export after a random block. non-trivial = block with >=1 tx / non-empty document; distinct = distinct op lines",
+  "trusted_base": ["cosmos-sdk baseapp/IAVL/cachekv (cachekv flushes in sorted key order: the committed hash depends on the set of writes of a block, not their order)",
+                   "T1 map-range classifier tools/extract/gen_det.go: syntactic type resolution (cross-checked once against go/types: 37 of 582 range statements are over maps, "
+                   "identical sets) and syntactic body classes sorted/commutative/readonly; everything else must be in the hand-audited table of Props/C19",
+                   "the digest protocol: the Lean side of engine det is the identity on digests (the property compares two executions of the implementation)"],
+  "assumptions": ["PARTIAL. Proved (all inputs, over the models): sorted-keys / lookup / commutative-fold / distinct-slot-scatter invariance under permutation of a Go map's "
+                  "iteration order, instantiated for x/incentives distributionInfo, distributeSyntheticInternal and x/poolmanager TakerFeeSkim; export/import of the modelled "
+                  "modules: sum tree (abstraction + all queries preserved, shape may differ), accumulator store (identity), epochs (identity up to CurrentEpochStartHeight, "
+                  "bisimilar afterwards), mint (identity IFF no reduction happened: InitGenesis resets the provisions).",
+                  "NOT proved, OBSERVED by engine det on the sampled histories only: independence of Go map iteration seeds, goroutine schedules, GC and wall clock "
+                  "(two executions in one process + one in another OS process), and export/import of the whole app.",
+                  "Tied by T1: every range over a map in app/, x/, osmoutils/, ante/, wasmbinding/ (non-test) is enumerated from the current source; a range whose body is not "
+                  "recognisably order-insensitive must appear in Props.C19.auditedEffectful (16 sites audited by reading; 3 ORDER-DEPENDENT = findings F19a/F19b).",
+                  "export/import excludes module 08-wasm (ibc-go keeps its store service/VM in package globals: only the most recently constructed app of a process can export it; "
+                  "a failing export panics inside a goroutine of ExportGenesisForModules). Superfluid, gov, authz, IBC transfers and wasm contracts are not in the workload "
+                  "(their genesis documents are still exported/imported and compared, mostly empty).",
+                  "imported nodes are started with x-crisis-skip-assert-invariants (F19d); every registered invariant is evaluated after InitChain instead.",
+                  "app hashes are not compared across an import (IAVL versions differ); the imported node whose raw KV stores were synchronised with the exporter must reproduce "
+                  "every tx result, gas, event, module export, query and raw store (staking HistoricalInfo, which embeds the app hash, excepted)."],
+  "explanation": "34 theorems (mechanisms, distributionInfo/TakerFeeSkim instances, export/import incl. negative witnesses, the T1 obligations) + engine det: per block app hash, "
+                 "tx code/codespace/data/log/gas and ordered events of two in-process executions and a second process; export -> import -> per-module genesis, keeper queries, "
+                 "invariants, remaining history; probes for the audited order-dependent sites.",
+ },
 }
